@@ -287,10 +287,21 @@ struct Facts<'f> {
     nodes: &'f [NodeV],
     /// answer of `lookup_addrs` per (pool name, search_below_cuts)
     table: [[Ans; 2]; NPOOL],
+    /// The sequence of (name, search_below_cuts) arguments the harness
+    /// expects `lookup_addrs` to be called with.  It does NOT decide the
+    /// answers: the mock asserts that the k-th call's actual arguments equal
+    /// hints[k] and then answers table[hints[k]], i.e. table[actual
+    /// arguments].  Its only purpose is to let CBMC see a constant table
+    /// index (the name in a `Box<Name>` is not a constant to CBMC - measured -
+    /// so an index computed from it makes every answer kind, and with it the
+    /// whole control flow of validate, symbolic).  A wrong or too short hint
+    /// sequence fails the harness; it can never hide anything.
+    hints: &'f [(usize, bool)],
 }
 
 struct MockZone<'f> {
     f: Facts<'f>,
+    calls: core::cell::Cell<usize>,
 }
 
 fn single(raw: &'static [u8]) -> SingleRrset<'static> {
@@ -317,9 +328,18 @@ impl<'f> Zone for MockZone<'f> {
         LookupResult::NxDomain
     }
     fn lookup_addrs(&self, name: &Name, options: LookupOptions) -> LookupAddrsResult {
-        let i = which_wire(name.wire_repr());
-        assert!(i < NPOOL, "[C21] address lookup for a name that no NS / MX record of the zone mentions");
-        let ans = self.f.table[i][if options.search_below_cuts { 1 } else { 0 }];
+        let k = self.calls.get();
+        self.calls.set(k + 1);
+        assert!(
+            k < self.f.hints.len(),
+            "[C21] harness: more address lookups than the scenario's hint sequence has (harness limitation, not a verdict)"
+        );
+        let (i, below) = self.f.hints[k];
+        assert!(
+            wire_is(name.wire_repr(), pool(i).wire()) && options.search_below_cuts == below,
+            "[C21] harness: address lookup arguments differ from the scenario's hint sequence (harness limitation, not a verdict)"
+        );
+        let ans = self.f.table[i][if below { 1 } else { 0 }];
         match ans {
             Ans::Found { a, aaaa } => LookupAddrsResult::Found(Found {
                 data: Addresses {
@@ -617,7 +637,10 @@ fn note(issue: &ValidationIssue, exp: &IssueSet, seen: &mut IssueSet) {
 /// `cap` is a concrete upper bound on the number of issues of the scenario.
 fn run(f: &Facts, cap: usize) -> IssueSet {
     let exp = ref_validate(f);
-    let zone = MockZone { f: *f };
+    let zone = MockZone {
+        f: *f,
+        calls: core::cell::Cell::new(0),
+    };
     let r = validate(&zone);
     let mut seen = IssueSet::empty();
     match &r {
@@ -708,7 +731,14 @@ static NODES_H_A_TXT: [NodeV; 1] = [NodeV { owner: N_H, sets: &S_A_TXT }];
 const FOUND_A: Ans = Ans::Found { a: true, aaaa: false };
 
 /// Facts of a zone whose apex is in order (one SOA, NS ns.z. with an A record).
-fn base<'f>(class: Class, class_code: u16, policy: GluePolicy, wide: bool, nodes: &'f [NodeV]) -> Facts<'f> {
+fn base<'f>(
+    class: Class,
+    class_code: u16,
+    policy: GluePolicy,
+    wide: bool,
+    nodes: &'f [NodeV],
+    hints: &'f [(usize, bool)],
+) -> Facts<'f> {
     let mut table = no_table();
     table[N_NSZ][0] = FOUND_A;
     Facts {
@@ -720,8 +750,23 @@ fn base<'f>(class: Class, class_code: u16, policy: GluePolicy, wide: bool, nodes
         ns: Some(&RS_NS_NSZ),
         nodes,
         table,
+        hints,
     }
 }
+
+// hint sequences (see `Facts::hints`); every scenario's apex NS set comes first
+static H_NSZ: [(usize, bool); 1] = [(N_NSZ, false)];
+static H_OUT_NSZ: [(usize, bool); 2] = [(N_OUT, false), (N_NSZ, false)];
+static H_NSZ_NSD_GLUE: [(usize, bool); 3] = [(N_NSZ, false), (N_NSD, false), (N_NSD, true)];
+static H_NSZ_NSE_GLUE: [(usize, bool); 3] = [(N_NSZ, false), (N_NSE, false), (N_NSE, true)];
+static H_OUT_NSD_GLUE_NSZ_GLUE: [(usize, bool); 5] =
+    [(N_OUT, false), (N_NSD, false), (N_NSD, true), (N_NSZ, false), (N_NSZ, true)];
+static H_OUT_NSZ_GLUE: [(usize, bool); 3] = [(N_OUT, false), (N_NSZ, false), (N_NSZ, true)];
+static H_NSZ_MX: [(usize, bool); 2] = [(N_NSZ, false), (N_MX, false)];
+static H_NSZ_NSZ_MX: [(usize, bool); 3] = [(N_NSZ, false), (N_NSZ, false), (N_MX, false)];
+static H_CLEAN: [(usize, bool); 4] = [(N_NSZ, false), (N_MX, false), (N_NSD, false), (N_NSD, true)];
+static H_DIRTY: [(usize, bool); 3] = [(N_NSD, false), (N_NSD, true), (N_OUT, false)];
+static H_DEDUPE: [(usize, bool); 4] = [(N_NSZ, false), (N_MX, false), (N_NSZ, false), (N_MX, false)];
 
 // --------------------------------------------------------------------------
 // harnesses
@@ -736,7 +781,7 @@ fn base<'f>(class: Class, class_code: u16, policy: GluePolicy, wide: bool, nodes
 fn c21_apex_soa_ns_presence() {
     let (class, class_code) = any_class();
     let (policy, wide) = any_policy();
-    let mut f = base(class, class_code, policy, wide, &NODES_NONE);
+    let mut f = base(class, class_code, policy, wide, &NODES_NONE, &H_NSZ);
     let e11 = run(&f, 2);
     f.soa = None;
     let e01 = run(&f, 2);
@@ -765,7 +810,7 @@ fn c21_apex_soa_ns_presence() {
 fn c21_apex_ns_one() {
     let (class, class_code) = any_class();
     let (policy, wide) = any_policy();
-    let mut f = base(class, class_code, policy, wide, &NODES_NONE);
+    let mut f = base(class, class_code, policy, wide, &NODES_NONE, &H_NSZ);
     f.table[N_NSZ][0] = any_ans(N_D);
     let e = run(&f, 1);
     let t = f.table[N_NSZ][0];
@@ -779,7 +824,7 @@ fn c21_apex_ns_one() {
 fn apex_ns_two(first: Ans) -> (IssueSet, Ans, u16) {
     let (class, class_code) = any_class();
     let (policy, wide) = any_policy();
-    let mut f = base(class, class_code, policy, wide, &NODES_NONE);
+    let mut f = base(class, class_code, policy, wide, &NODES_NONE, &H_OUT_NSZ);
     f.ns = Some(&RS_NS_OUT_NSZ);
     f.table[N_OUT][0] = first;
     f.table[N_NSZ][0] = any_ans(N_D);
@@ -820,7 +865,7 @@ fn c21_apex_ns_two_both() {
 fn c21_delegation_own_ns() {
     let (class, class_code) = any_class();
     let (policy, wide) = any_policy();
-    let mut f = base(class, class_code, policy, wide, &NODES_D_NSD);
+    let mut f = base(class, class_code, policy, wide, &NODES_D_NSD, &H_NSZ_NSD_GLUE);
     let t1 = any_ans(N_D);
     f.table[N_NSD][1] = t1;
     let mut es = [IssueSet::empty(); NKIND];
@@ -853,7 +898,7 @@ fn c21_delegation_own_ns() {
 fn c21_delegation_sibling_ns() {
     let (class, class_code) = any_class();
     let (policy, wide) = any_policy();
-    let mut f = base(class, class_code, policy, wide, &NODES_D_NSE);
+    let mut f = base(class, class_code, policy, wide, &NODES_D_NSE, &H_NSZ_NSE_GLUE);
     f.table[N_NSE][0] = Ans::Referral { child: N_E };
     f.table[N_NSE][1] = any_ans(N_E);
     let e = run(&f, 1);
@@ -872,7 +917,7 @@ fn c21_delegation_sibling_ns() {
 fn c21_delegation_two_ns() {
     let (class, class_code) = any_class();
     let (policy, wide) = any_policy();
-    let mut f = base(class, class_code, policy, wide, &NODES_D_NSD_NSZ);
+    let mut f = base(class, class_code, policy, wide, &NODES_D_NSD_NSZ, &H_OUT_NSD_GLUE_NSZ_GLUE);
     f.ns = Some(&RS_NS_OUT);
     f.table[N_OUT][0] = Ans::WrongZone;
     f.table[N_NSD][0] = Ans::Referral { child: N_D };
@@ -901,11 +946,11 @@ fn c21_delegation_two_ns() {
 fn c21_cname_nodes() {
     let (class, class_code) = any_class();
     let (policy, wide) = any_policy();
-    let e1 = run(&base(class, class_code, policy, wide, &NODES_H_CNAME1), 2);
-    let e2 = run(&base(class, class_code, policy, wide, &NODES_H_CNAME2), 2);
-    let e3 = run(&base(class, class_code, policy, wide, &NODES_H_CNAME1_A), 2);
-    let e4 = run(&base(class, class_code, policy, wide, &NODES_H_TXT_CNAME2), 2);
-    let e5 = run(&base(class, class_code, policy, wide, &NODES_H_A_TXT), 2);
+    let e1 = run(&base(class, class_code, policy, wide, &NODES_H_CNAME1, &H_NSZ), 2);
+    let e2 = run(&base(class, class_code, policy, wide, &NODES_H_CNAME2, &H_NSZ), 2);
+    let e3 = run(&base(class, class_code, policy, wide, &NODES_H_CNAME1_A, &H_NSZ), 2);
+    let e4 = run(&base(class, class_code, policy, wide, &NODES_H_TXT_CNAME2, &H_NSZ), 2);
+    let e5 = run(&base(class, class_code, policy, wide, &NODES_H_A_TXT, &H_NSZ), 2);
     kani::cover!(e1.is_empty(), "a lone CNAME is fine");
     kani::cover!(e2.has(K_DUP_CNAME, N_H) && !e2.has(K_CNAME_OTHER, N_H), "duplicate CNAME only");
     kani::cover!(e3.has(K_CNAME_OTHER, N_H) && !e3.has(K_DUP_CNAME, N_H), "CNAME and other data only");
@@ -922,7 +967,7 @@ fn c21_cname_nodes() {
 fn c21_wildcard_ns() {
     let (class, class_code) = any_class();
     let (policy, wide) = any_policy();
-    let mut f = base(class, class_code, policy, wide, &NODES_WILD_NS);
+    let mut f = base(class, class_code, policy, wide, &NODES_WILD_NS, &H_OUT_NSZ_GLUE);
     f.ns = Some(&RS_NS_OUT);
     f.table[N_OUT][0] = Ans::WrongZone;
     let mut es = [IssueSet::empty(); NKIND];
@@ -949,7 +994,7 @@ fn c21_wildcard_ns() {
 fn c21_mx_one() {
     let (class, class_code) = any_class();
     let (policy, wide) = any_policy();
-    let mut f = base(class, class_code, policy, wide, &NODES_APEX_MX);
+    let mut f = base(class, class_code, policy, wide, &NODES_APEX_MX, &H_NSZ_MX);
     f.table[N_MX][0] = any_ans(N_D);
     let e = run(&f, 1);
     let t = f.table[N_MX][0];
@@ -969,7 +1014,7 @@ fn c21_mx_one() {
 fn c21_mx_two() {
     let (class, class_code) = any_class();
     let (policy, wide) = any_policy();
-    let mut f = base(class, class_code, policy, wide, &NODES_H_MX2);
+    let mut f = base(class, class_code, policy, wide, &NODES_H_MX2, &H_NSZ_NSZ_MX);
     f.table[N_NSZ][0] = Ans::Found { a: false, aaaa: false };
     f.table[N_MX][0] = any_ans(N_D);
     let e = run(&f, 3);
@@ -987,7 +1032,7 @@ fn c21_mx_two() {
 fn c21_clean_zone() {
     let (class, class_code) = any_class();
     let (policy, wide) = any_policy();
-    let mut f = base(class, class_code, policy, wide, &NODES_CLEAN);
+    let mut f = base(class, class_code, policy, wide, &NODES_CLEAN, &H_CLEAN);
     f.table[N_MX][0] = Ans::Found { a: false, aaaa: true };
     f.table[N_NSD][0] = Ans::Referral { child: N_D };
     f.table[N_NSD][1] = FOUND_A;
@@ -1006,7 +1051,7 @@ fn c21_clean_zone() {
 #[kani::unwind(8)]
 fn c21_many_issues() {
     let (policy, wide) = any_policy();
-    let mut f = base(Class::IN, 1, policy, wide, &NODES_DIRTY);
+    let mut f = base(Class::IN, 1, policy, wide, &NODES_DIRTY, &H_DIRTY);
     f.soa = None;
     f.ns = None;
     f.table[N_NSD][0] = Ans::Referral { child: N_D };
@@ -1035,7 +1080,7 @@ fn c21_same_issue_once() {
     let (policy, wide) = any_policy();
     let ch: bool = kani::any();
     let (class, class_code) = if ch { (Class::CH, 3) } else { (Class::IN, 1) };
-    let mut f = base(class, class_code, policy, wide, &NODES_DEDUPE);
+    let mut f = base(class, class_code, policy, wide, &NODES_DEDUPE, &H_DEDUPE);
     f.table[N_NSZ][0] = Ans::NxDomain;
     f.table[N_MX][0] = Ans::NxDomain;
     let e = run(&f, 2);
